@@ -347,6 +347,9 @@ namespace occa {
       tileSize = other.tileSize;
       tileIterations = other.tileIterations;
 
+      // The return buffer was allocated on the previous device
+      returnMemory = occa::memory();
+
       return *this;
     }
 
